@@ -389,6 +389,41 @@ fn p_cb_it() {
     kani::cover!(which, "callback");
     kani::cover!(!which, "iterator");
 }
+/// a source that is NOT fused: yields arr[0], arr[1], arr[2] (each possibly None), then None
+struct Gappy { items: [Option<u32>; 3], pos: usize }
+impl Iterator for Gappy { type Item = u32; fn next(&mut self) -> Option<u32> { if self.pos < 3 { self.pos += 1; self.items[self.pos - 1] } else { None } } }
+#[kani::proof]
+#[kani::unwind(5)]
+fn p_cb_it_after_end_or_stop() {
+    // values keep crossing unchanged AFTER an iterator once reported "no item" (non-fused source)
+    // and AFTER a callback once answered "stop"
+    let mut rec = rec0();
+    let (w, o) = (rec.wval as u32, rec.out_payload as u32);
+    let which: bool = kani::any();
+    if which {
+        let answers: [bool; 3] = kani::any();
+        let mut seen = [0u32; 3];
+        let mut n = 0usize;
+        let mut f = |v: u32| { if n < 3 { seen[n] = v; } n += 1; n <= 3 && answers[n - 1] };
+        let obj = trait_obj!(imp(&mut rec) as Shapes2);
+        obj.cb_all((&mut f).into());
+        core::mem::forget(obj);
+        assert!(n == 3 && seen[0] == w && seen[1] == o && seen[2] == w ^ o, "C02 every value passed to a callback arrives unchanged, also after it once answered false");
+        assert!(rec.variant == answers[0] as u8 | (answers[1] as u8) << 1 | (answers[2] as u8) << 2, "C02 every answer of the callback returns unchanged");
+        kani::cover!(!answers[0] && answers[1], "continue after a stop answer");
+    } else {
+        let items: [Option<u32>; 3] = kani::any();
+        let mut src = Gappy { items, pos: 0 };
+        let obj = trait_obj!(imp(&mut rec) as Shapes);
+        obj.it(CIterator::new(&mut src));
+        core::mem::forget(obj);
+        let mask = (items[0].is_some() as usize) | (items[1].is_some() as usize) << 1 | (items[2].is_some() as usize) << 2;
+        assert!(rec.len == mask, "C02 an iterator argument yields an item exactly when its source does, also after the source once yielded None");
+        assert!(rec.payload as u32 == items[0].unwrap_or(0) && (rec.payload >> 32) as u32 == items[1].unwrap_or(0) && rec.elem as u32 == items[2].unwrap_or(0), "C02 iterator items cross unchanged and in order");
+        assert!(src.pos == 3, "C02 the source was polled exactly once per request");
+        kani::cover!(items[0].is_none() && items[1].is_some(), "item after a None");
+    }
+}
 //@ prefix=canary kind=canary clause=vacuity canary
 #[kani::proof]
 fn canary_c02() {
